@@ -82,7 +82,11 @@ class Shaper:
         if codec_param:
             env[codec_param] = "C"
         self.root = finfo
-        return self._body(finfo, finfo.node.body, env)
+        self.in_codec = finfo.cls is not None and self.codec_cls in self.p.mro(finfo.cls)
+        try:
+            return self._body(finfo, finfo.node.body, env)
+        finally:
+            self.in_codec = False
 
     # ------------------------------------------------------------ statements
     def _body(self, f, stmts, env):
@@ -512,6 +516,15 @@ class Shaper:
                 return f"{fn.id}({', '.join(args_txt)})"
             out.append(("unk", f"call {norm(fn)} with codec"))
             return "?"
+        # pure package helper with a single definite result (e.g. a range-checked
+        # subscript extracted into a function): use its result text, so that
+        # extracting or inlining such a helper leaves the term unchanged
+        if callee is not None and callee.cls is None and callee.name not in DATA_FUNCS and self.depth < 4 and not callee.is_generator():
+            sub = []
+            ret = self._inline(callee, call, f, env, sub, is_method=False, pre_args=args_txt, pre_kw=kw_txt)
+            simple = all(x[0] in ("if", "raise", "handler") for x in _flat(sub)) and not any(x[0] in ("V", "P", "R", "D", "T", "unk", "set") for x in _flat(sub))
+            if simple and not ret.startswith("?") and ret != "None":
+                return ret
         # constructing a new codec object over a stream: BinaryDecoder(x)
         r = self.p.resolve_expr(f.mod, fn) if isinstance(fn, (ast.Name, ast.Attribute)) else None
         if r and r[0] == "class" and r[1] is self.codec_cls:
